@@ -10,4 +10,17 @@ MUT = {
  'c20_type_is': ('aiuti/asyncio.py', "        if isinstance(res, only):\n            yield res", "        if type(res) is only or only is BaseException and isinstance(res, BaseException):\n            yield res", 'C20'),
  'c20_no_return_exc': ('aiuti/asyncio.py', "await aio.gather(*aws, return_exceptions=True)", "await aio.gather(*aws, return_exceptions=False) if False else await _ge(aws)", 'C20'),
  'c20_ignore_only': ('aiuti/asyncio.py', "    async for exc in gather_excs(aws, only):\n        raise exc", "    async for exc in gather_excs(aws):\n        raise exc", 'C20'),
+ 'c19_rsplit': ('aiuti/parsing.py', "k, v = pair.split(sep, 1)", "k, v = pair.rsplit(sep, 1)", 'C19'),
+ 'c19_split_all': ('aiuti/parsing.py', "k, v = pair.split(sep, 1)", "k, v = pair.split(sep)[:2] if sep in pair else pair.split(sep, 1)", 'C19'),
+ 'c19_eval': ('aiuti/parsing.py', "parse: Callable[[str], Any] = ast.literal_eval,", "parse: Callable[[str], Any] = eval,", 'C19'),
+ 'c19_except_valueerror': ('aiuti/parsing.py', "            except:  # noqa\n                pass", "            except (ValueError, SyntaxError):  # noqa\n                pass", 'C19'),
+ 'c19_keys_always': ('aiuti/parsing.py', "            return key, try_parse(value)", "            return try_parse(key), try_parse(value)", 'C19'),
+ 'c19_partition': ('aiuti/parsing.py', """                k, v = pair.split(sep, 1)""", """                k, _s, v = pair.partition(sep)
+                if not _s and pair:
+                    raise ValueError""", 'C19'),
+ 'c14_args_only': ('aiuti/asyncio.py', "key = args, frozenset(kwargs.items())", "key = args, frozenset(kwargs)", 'C14'),
+ 'c14_kw_order': ('aiuti/asyncio.py', "key = args, frozenset(kwargs.items())", "key = args, tuple(kwargs.items())", 'C14'),
+ 'c14_str_key': ('aiuti/asyncio.py', "key = args, frozenset(kwargs.items())", "key = tuple(map(str, args)), frozenset(kwargs.items())", 'C14'),
+ 'c14_private_store': ('aiuti/asyncio.py', "    _cache: _CacheMap = cache if cache is not None else {}", "    _cache: _CacheMap = dict(cache) if cache is not None else {}", 'C14'),
+ 'c14_flatten': ('aiuti/asyncio.py', "key = args, frozenset(kwargs.items())", "key = args + tuple(v for _, v in sorted(kwargs.items()))", 'C14'),
 }
